@@ -1112,12 +1112,12 @@ class _Observer:
             proj.adopt(W._Donor(after, state=donor_state))
             self.memo[ckey] = W.safe_apply(proj, ref_op, ambient=other)
         ref_c = self.memo[ckey]
-        if not W.same_result(out_live, ref_c):
+        if not W.same_result(ref_b, ref_c):       # (a history dependence of the live result is reported by 3a/3b)
             ctx.violation(site, tag + "depends_on_default_dtype",
-                          f"after {_fmt(hist)} the result of {_fmt([op])} (ambient default {after.ambient_pre[1]}) differs from "
-                          f"the same query by a fresh hedger on the current series under torch default dtype {other} "
+                          f"after {_fmt(hist)}: the result of {_fmt([ref_op])} by a fresh hedger on the current series under "
+                          f"torch default dtype {other} differs from the same under the other default "
                           f"[variant {self.variant}]",
-                          observed=W.describe(out_live), expected=W.describe(ref_c), block=blk)
+                          observed=W.describe(ref_c), expected=W.describe(ref_b), block=blk)
         ctx.add("differential_comparisons", 3)
         if isinstance(out_live, torch.Tensor) and out_live.numel():
             ctx.outcome((self.variant, op[0], round(float(out_live.detach().to(torch.float64).nan_to_num(nan=-1.0).sum()), 9)))
